@@ -1,11 +1,13 @@
 package main
 
 import (
+	"verif.local/mc/harness/c07"
 	"verif.local/mc/harness/c17"
 	"verif.local/mc/harness/c19"
 )
 
 func init() {
+	register("C07", "exploration", c07.Run)
 	register("C17", "exploration", c17.Run)
 	register("C19", "exploration", c19.Run)
 }
